@@ -107,13 +107,16 @@ func main() {
 	}
 
 	var results []*Result
+	var eng *Engine
 	for _, h := range harnesses {
 		fn := target.Func(h)
 		if fn == nil {
 			fatal("harness %s not found in %s", h, target.Pkg.Path())
 		}
-		eng := &Engine{prog: prog, maxSteps: *maxSteps, maxLoop: *maxLoop, transparent: transparent, solverBin: *solver,
+		if eng == nil {
+			eng = &Engine{prog: prog, maxSteps: *maxSteps, maxLoop: *maxLoop, transparent: transparent, solverBin: *solver,
 			timeoutMs: *timeout, incTimeoutMs: *incTimeout, portfolio: *portfolio, crossCheck: *cross, workers: *workers, maxPaths: *maxPaths, wantWitness: *witness, maxBigBytes: *maxBig}
+		}
 		res := eng.Explore(fn)
 		results = append(results, res)
 		fmt.Fprintf(os.Stderr, "symgo: %s: %d paths %v, %d queries, %.1fs solver, %.1fs wall, %d violations\n",
